@@ -22,13 +22,15 @@ from . import strings
 
 
 class CharClass:
-    __slots__ = ('ch', 'phi', 'fn', 'index')
+    __slots__ = ('ch', 'phi', 'fn', 'index', 'relevant')
 
     def __init__(self, ch, phi, fn, index):
         self.ch = ch          # the generic character (z3 String constant of length 1)
         self.phi = phi        # z3 Bool term over ch
         self.fn = fn          # z3 Function String -> Bool
         self.index = index
+        self.relevant = {}    # ids of the terms the measure has been applied to, and of their pieces: the
+        #                       homomorphism axiom is instantiated only at decompositions of these
 
     def at(self, t):
         """pred applied to the one-character string term t"""
@@ -91,8 +93,7 @@ def class_of(interp, pred):
         fn = z3.Function('allchars!%d' % len(reg), z3.StringSort(), z3.BoolSort())
         found = CharClass(ch, phi, fn, len(reg))
         reg.append(found)
-        st.assume(fn(z3.StringVal('')))
-        strings.replay_concats(interp, lambda whole, parts: note_concat(interp, whole, parts, only=found))
+        st._add(fn(z3.StringVal('')))
     if ck is not None:
         cache[ck] = found
     return found
@@ -124,6 +125,10 @@ def note_concat(interp, whole, parts, only=None):
     for cc in reg:
         if only is not None and cc is not only:
             continue
+        if whole.get_id() not in cc.relevant:
+            continue
+        for p in parts:
+            cc.relevant[p.get_id()] = p
         if len(parts) > 1:
             st.assume(cc.fn(whole) == z3.And(*[cc.fn(p) for p in parts]))
         elif not parts[0].eq(whole):
@@ -140,13 +145,39 @@ def apply(interp, cc, s):
         if not strings._has_escape_val(t):
             return wrap(z3.And(*[cc.at(strings._charval(c)) for c in s])) if s else True
     t = strings._s(s)
-    pieces = strings._flat_concat(strings.norm(interp, t))
-    if len(pieces) > 1 or not pieces[0].eq(t):
-        st.assume(cc.fn(t) == (z3.And(*[cc.fn(p) for p in pieces]) if len(pieces) > 1 else cc.fn(pieces[0])))
-    for p in pieces:
-        _facts(interp, cc, p)
-    _facts(interp, cc, t)
+    _make_relevant(interp, cc, t, 0)
     return wrap(cc.fn(t))
+
+
+def _make_relevant(interp, cc, t, depth):
+    """the measure is (about to be) applied to t: instantiate the homomorphism axiom at every known visible
+    decomposition of t, and of the pieces"""
+    st = interp.st
+    if z3.is_string_value(t):
+        _facts(interp, cc, t)
+        return
+    key = ('__charclass_rel__', cc.index, t.get_id())
+    seen = st.ghost.get(key)
+    cc.relevant[t.get_id()] = t
+    _facts(interp, cc, t)
+    if depth > 8:
+        return
+    decs = list(strings._visible_decomps(interp, t))
+    n_seen = seen if seen is not None else 0
+    st.ghost[key] = max(n_seen, len(strings._decomps(interp, t)))
+    for d in decs:
+        did = id(d)
+        k2 = ('__charclass_dec__', cc.index, t.get_id(), did)
+        if k2 in st.ghost:
+            continue
+        st.ghost[k2] = d
+        pieces = list(d)
+        if len(pieces) > 1:
+            st.assume(cc.fn(t) == z3.And(*[cc.fn(p) for p in pieces]))
+        elif pieces and not pieces[0].eq(t):
+            st.assume(cc.fn(t) == cc.fn(pieces[0]))
+        for p in pieces:
+            _make_relevant(interp, cc, p, depth + 1)
 
 
 def m_all_chars(interp, args, kwargs):
@@ -192,3 +223,84 @@ def m_takewhile(interp, args, kwargs):
     st.assume(cc.fn(p))
     st.assume(z3.Not(cc.at(c)))
     return SCharIter(wrap(p))
+
+
+# ------------------------------------------------------------------------------ str.isX() / str.strip() by character class
+
+ALL_CHARS_PREDICATES = ('isspace', 'isalnum', 'isalpha', 'isdigit', 'isdecimal', 'isnumeric')
+
+
+def class_of_upred(interp, name):
+    """the class of the characters c with c.<name>() (e.g. isspace)"""
+    st = interp.st
+    key = '__charclass_upred__' + name
+    cc = st.ghost.get(key)
+    if cc is None:
+        ch = st.fresh_str('ch')
+        st._add(z3.Length(ch) == 1)
+        strings.known_single_char(interp, ch)
+        v = strings._upred(interp, name, SStr(ch))
+        phi = to_z3(v) if not isinstance(v, bool) else z3.BoolVal(v)
+        reg = _registry(interp)
+        fn = z3.Function('allchars!%d' % len(reg), z3.StringSort(), z3.BoolSort())
+        cc = CharClass(ch, phi, fn, len(reg))
+        reg.append(cc)
+        st._add(fn(z3.StringVal('')))
+        st.ghost[key] = cc
+    return cc
+
+
+def upred_of_string(interp, name, s):
+    """s.<name>() for the predicates that mean `s is not empty and every character of s is <name>`"""
+    t = strings._s(s)
+    cc = class_of_upred(interp, name)
+    a = apply(interp, cc, s)
+    return wrap(z3.And(z3.Length(t) > 0, to_z3(a)))
+
+
+def strip_space(interp, s, left, right):
+    """s.strip() / lstrip() / rstrip() without argument: white space is the class of str.isspace.
+    The result is an uninterpreted function of s (equal arguments give syntactically equal results) defined
+    by  s == a . r . b,  a and b consist of white space only, r neither starts nor ends with white space."""
+    st = interp.st
+    t = strings._s(s)
+    cc = class_of_upred(interp, 'isspace')
+    kind = ('l' if left else '') + ('r' if right else '')
+    f = z3.Function('str.%sstrip[space]' % {'lr': '', 'l': 'l', 'r': 'r'}[kind], z3.StringSort(), z3.StringSort())
+    key = ('__strip_space__', kind, t.get_id())
+    if key in st.ghost:
+        return wrap(st.ghost[key][1])
+    if key not in st.ghost:
+        # the result is a constant r with r == f(t): the word equations below then contain no function
+        # application (much easier for the string solvers), congruence is kept by r == f(t)
+        r = strings._fresh(interp, 'stripped')
+        st._add(r == f(t))
+        st.ghost[key] = (t, r)
+        a = strings._fresh(interp, 'strip.l') if left else z3.StringVal('')
+        b = strings._fresh(interp, 'strip.r') if right else z3.StringVal('')
+        # valid for every string t (the pieces are fresh): outside any merge scope
+        st._add(t == strings._cat([a, r, b]))
+        if left:
+            st._add(cc.fn(a))
+            c1 = strings._fresh(interp, 'strip.first')
+            m1 = strings._fresh(interp, 'strip.m')
+            st._add(z3.Or(r == z3.StringVal(''),
+                          z3.And(r == z3.Concat(c1, m1), z3.Length(c1) == 1, z3.Not(cc.at(c1)))))
+        if right:
+            st._add(cc.fn(b))
+            c2 = strings._fresh(interp, 'strip.last')
+            m2 = strings._fresh(interp, 'strip.m')
+            st._add(z3.Or(r == z3.StringVal(''),
+                          z3.And(r == z3.Concat(m2, c2), z3.Length(c2) == 1, z3.Not(cc.at(c2)))))
+        pieces = [x for x in (a, r, b) if not (z3.is_string_value(x) and x.as_string() == '')]
+        strings._decomps(interp, t).append(strings.Dec(pieces))
+        saved = st.scopes
+        st.scopes = []
+        try:
+            strings.note_concat(interp, t, [a, r, b])
+            for x in (a, b, r):
+                if not z3.is_string_value(x):
+                    _facts(interp, cc, x)
+        finally:
+            st.scopes = saved
+    return wrap(r)
